@@ -1,6 +1,8 @@
 CONSTANTS
   Files = {"a.py", "src/b.c", "docs/c.md"}
   Lics = {"MIT", "0BSD", "LicenseRef-x"}
+  GlobFiles = {"docs/c.md"}
+  GlobLic = "0BSD"
   MaxCmds = 4
   InitPick = "all"
 INIT Init
